@@ -16,6 +16,7 @@ var (
 	ErrInvalidLength     = errors.New("invalid signature length")
 	ErrInvalidRecoveryID = errors.New("invalid signature recovery id")
 	ErrNonCanonicalS     = errors.New("invalid signature: s is in the upper half of the curve order")
+	ErrInvalidPublicKey  = errors.New("invalid signature: recovered key is not a point of the curve")
 )
 
 // halfOrder is half the order of the secp256k1 group.
@@ -75,7 +76,15 @@ func Recover(signature, data []byte) (*ecdsa.PublicKey, error) {
 	}
 
 	p, _, err := btcec.RecoverCompact(btcec.S256(), btcsig, hash)
-	return (*ecdsa.PublicKey)(p), err
+	if err != nil {
+		return nil, err
+	}
+	// RecoverCompact does not refuse the point at infinity (0, 0), for which
+	// anybody can make a signature over any data without owning a key.
+	if !btcec.S256().IsOnCurve(p.X, p.Y) {
+		return nil, ErrInvalidPublicKey
+	}
+	return (*ecdsa.PublicKey)(p), nil
 }
 
 type defaultSigner struct {
@@ -187,5 +196,11 @@ func RecoverEIP712(signature []byte, data *eip712.TypedData) (*ecdsa.PublicKey, 
 	}
 
 	p, _, err := btcec.RecoverCompact(btcec.S256(), btcsig, sighash)
-	return (*ecdsa.PublicKey)(p), err
+	if err != nil {
+		return nil, err
+	}
+	if !btcec.S256().IsOnCurve(p.X, p.Y) {
+		return nil, ErrInvalidPublicKey
+	}
+	return (*ecdsa.PublicKey)(p), nil
 }
